@@ -137,7 +137,7 @@ func (g *agate) release(a *actor) bool {
 	select {
 	case a.resume <- struct{}{}:
 		return true
-	case <-time.After(3 * time.Second):
+	case <-time.After(watchdog):
 		return false
 	}
 }
